@@ -10,7 +10,7 @@ PROP = dict(
             3: ("record-differs-from-submitted", "monitor"),
             4: ("record-of-other-id-changed", "monitor"),
             5: ("port-address-changed-or-unset", "monitor"),
-            6: ("valid-proposal-rejected", "mismatch"),
+            6: ("passed-proposal-not-recorded", "monitor"),  # equal list lengths / supported denomination, yet rejected: the store has no record of a passed proposal
             7: ("model-state-differs", "mismatch"),
         }
     },
